@@ -135,7 +135,11 @@ def main():
     else:
         seen_nontrivial = set()
         budget = job.get("budget_s", 60)
-        for inputs in hooks["small"](job.get("tier", "quick"), job.get("seed", 0)):
+        if job.get("shard"):
+            gen = hooks["small"](job.get("tier", "quick"), job.get("seed", 0), shard=tuple(job["shard"]))
+        else:
+            gen = hooks["small"](job.get("tier", "quick"), job.get("seed", 0))
+        for inputs in gen:
             summary, failed, problems = check_one(con, hooks, inputs, timeout_s)
             out["evaluations"] += 1
             k = summary["kind"] + ":" + str(summary.get("exception", ""))
